@@ -1,12 +1,19 @@
 #!/bin/sh
 # MANIFEST.setup_cmd: offline build of the framework from files on disk only.
-set -e
-cd "$(dirname "$0")"
+cd "$(dirname "$0")" || exit 1
 mkdir -p .build .deps evidence replays
 # scipy (QHA / EOS fitting) is not in /venv; install the wheel into /verif/.deps (never into /venv)
 if [ ! -d .deps/scipy ]; then
   PIP_NO_INDEX=1 /venv/bin/pip install --quiet --no-index --find-links /opt/veriftools/wheels --no-deps --target .deps scipy || echo "warning: scipy wheel not installed"
 fi
-# Lean: models, lemmas, property theorems (incremental afterwards)
-cd lean
-lake build PhononModel 2>&1 | tail -3
+# Lean: models, lemmas, property theorems (each check rebuilds its own module incrementally;
+# a module that fails here is reported by the check that owns it, not by setup)
+cd lean || exit 1
+for f in PhononModel/Props/C*.lean; do
+  m="PhononModel.Props.$(basename "$f" .lean)"
+  lake build "$m" 2>&1 | tail -1
+done
+for f in Drivers/C*.lean; do
+  for m in $(sed -n 's/^import \(PhononModel\.[A-Za-z0-9_.]*\).*/\1/p' "$f"); do lake build "$m" 2>&1 | tail -1; done
+done
+exit 0
